@@ -66,6 +66,10 @@ from ..c01_util import edge_guards
 
 # (rule, key, explanation) of genuine defects of the pristine tree this module reports (none known for C01)
 KNOWN = [
+    ('value-range-bound-agrees', 'osmium::detail::string_to_ulong(const char *, const char *)#value#max',
+     'string_to_ulong() accepts only value < 2^32-1: the XML reader (set_changeset / set_version / set_uid / num_changes / comments_count from '
+     'strings) rejects 4294967295, which the type, the builders and the XML writer accept: a node with changeset id 4294967295 written '
+     'as XML (changeset="4294967295") makes the Reader throw std::range_error "illegal changeset"; same class as F25'),
     ('reader-decompressor-honours-compression', 'osmium::io::Reader::make_decompressor#osmium::io::DummyDecompressor',
      'F19: Reader::make_decompressor() takes the DummyDecompressor for every PBF file read from a file descriptor and ignores '
      'file.compression(); the Writer compresses t.osm.pbf.gz / t.osm.pbf.bz2, reading them back throws "invalid BlobHeader size"'),
@@ -738,6 +742,29 @@ def block_limit_rules(fb, R):
         R.broken('no reader-side test against max_uncompressed_blob_size found')
 
 
+def _is_throw(fn, x):
+    """Element x is a throw expression or a call of a function that never returns normally (a `[[noreturn]]` throw helper: every
+    path through its body ends in a throw)."""
+    n = fn.nodes.get(x) if not isinstance(x, tuple) else None
+    if n is None:
+        return False
+    if n.get('k') == 'throw':
+        return True
+    if n.get('k') == 'call' and n.get('u'):
+        cache = fn.fb.__dict__.setdefault('_c01_noreturn', {})
+        u = n['u']
+        if u not in cache:
+            cache[u] = False   # recursion guard
+            for g in fn.fb.by_usr.get(u, []):
+                if g.has_cfg:
+                    cache[u] = path_search(g, g.entry, lambda e: isinstance(e, tuple) and e[0] == 'exit',
+                                           lambda e, g=g: g.nodes[e].get('k') == 'throw', from_block_start=True) is None \
+                        and any(m.get('k') == 'throw' for m in g.all_nodes())
+                    break
+        return cache[u]
+    return False
+
+
 def _throwing_sense(fn, cmp_id):
     """True/False if the comparison evaluating to that value necessarily leads to a throw, else None.
     Looks at the statement condition E the comparison is part of: E == cmp, or cmp is a disjunct of E and E true throws,
@@ -748,7 +775,7 @@ def _throwing_sense(fn, cmp_id):
     def throws(bid):
         if bid is None:
             return False
-        return path_search(fn, bid, exit_t, lambda x: fn.nodes[x].get('k') == 'throw', from_block_start=True) is None
+        return path_search(fn, bid, exit_t, lambda x: _is_throw(fn, x), from_block_start=True) is None
 
     def member(nid, op):
         n = fn.sn(nid)
@@ -1607,7 +1634,7 @@ def _reject_polarity(fn, cmp_id):
     def throws(bid):
         if bid is None:
             return False
-        return path_search(fn, bid, exit_t, lambda x: fn.nodes[x].get('k') == 'throw', from_block_start=True) is None
+        return path_search(fn, bid, exit_t, lambda x: _is_throw(fn, x), from_block_start=True) is None
 
     def find(nid, want, depth=0):
         """polarities p such that: cond == want  implies  cmp == p   ... returns set of p for which cmp is *decisive* for `want`:
@@ -1714,6 +1741,216 @@ def xml_self_closing_rules(fb, R):
         R.broken('XML writer: no self-closing object element found (node/way/relation/changeset)')
 
 
+# ================================================================================================ value range bounds
+
+def value_range_rules(fb, R):
+    """A reject-guard that compares a decoded value with std::numeric_limits<T>::max() / ::min() of a narrower (or differently
+    signed) type T -- the storage type the value is then narrowed to -- rejects exactly v > max(T) / v < min(T).  A guard that also
+    rejects v == max(T) refuses a value every builder and writer accepts."""
+    flip = {'<': '>', '>': '<', '<=': '>=', '>=': '<='}
+    for fn in fb.functions:
+        if not fn.has_cfg:
+            continue
+        for n in fn.all_nodes():
+            if n.get('k') != 'binop' or n.get('op') not in flip:
+                continue
+            side = None
+            for nm in ('lhs', 'rhs'):
+                x = codec.through_locals(fn, n[nm])
+                if x is not None and x.get('k') == 'call' and x.get('q') in ('std::numeric_limits::max', 'std::numeric_limits::min') and 'cv' in x:
+                    side, lim = nm, x
+            if side is None:
+                continue
+            other = n['lhs'] if side == 'rhs' else n['rhs']
+            ot = _int_type((fn.sn(other, casts=False) or fn.sn(other) or {}).get('t'))
+            ot2 = _int_type((codec.through_locals(fn, other) or {}).get('t'))
+            tt = _int_type(lim.get('t'))
+            if tt is None:
+                continue
+            # only genuine range checks before narrowing: the compared value has a wider / differently signed type than T
+            cands = [t for t in (ot, ot2) if t is not None]
+            if not cands or all(t == tt for t in cands):
+                continue
+            pol = _reject_polarity(fn, n['id'])
+            if pol is None:
+                continue
+            bound = int(lim['cv'])
+            is_max = lim['q'].endswith('::max')
+            op = n['op'] if side == 'rhs' else flip[n['op']]
+            rejected = [(_CMP[op](v, bound) == pol) for v in (bound - 1, bound, bound + 1)]
+            want = [False, False, True] if is_max else [True, False, False]
+            key = '%s(%s)#%s#%s' % (fn.q, ', '.join(p['tC'] for p in fn.params), fn.expr(other), 'max' if is_max else 'min')
+            tname = (codec.template_args(lim.get('rclsT')) or ['?'])[0]
+            if rejected[1]:
+                what = 'rejects the value %d = numeric_limits<%s>::%s() itself, which the type, the builders and every writer accept' % (bound, tname, 'max' if is_max else 'min')
+            else:
+                what = 'does not reject exactly the values outside the range of %s' % tname
+            R.check(rejected == want, 'value-range-bound-agrees', key, fn.loc(n['id']), '%s: the guard `%s` %s' % (fn.q, fn.expr(n['id']), what))
+
+
+# ================================================================================================ PBF block size estimate
+
+def _byte_quantity(fb, g, depth=0):
+    """Is what g returns measured in bytes?  (True, why) / (False, why) / (None, why)."""
+    rets = [n for n in g.all_nodes() if n.get('k') == 'return' and 'sub' in n]
+    if not rets:
+        return None, 'no return value'
+    verdicts = []
+    for r in rets:
+        sub = g.subtree(r['sub'])
+        if any(g.nodes[x].get('k') == 'sizeof' for x in sub):
+            verdicts.append((True, 'scaled by sizeof'))
+            continue
+        calls = [g.nodes[x] for x in sub if g.nodes[x].get('k') == 'call']
+        if any(c.get('q') in ('std::basic_string::size', 'std::basic_string::length', 'std::basic_string::capacity') for c in calls):
+            verdicts.append((True, 'size of a std::string'))
+            continue
+        fields = [g.nodes[x] for x in sub if g.nodes[x].get('k') == 'member' and g.nodes[x].get('field') and g.is_this_member(x)]
+        if not fields:
+            v = None
+            for c in calls:
+                for h in fb.by_usr.get(c.get('u'), []):
+                    if h.has_cfg and depth < 2 and h.cls and h.cls.startswith('osmium::'):
+                        v = _byte_quantity(fb, h, depth + 1)
+                        break
+            verdicts.append(v if v is not None else (None, 'return expression %s not understood' % g.expr(r['sub'])))
+            continue
+        for fld in fields:
+            grows_len, grows_const = [], []
+            for m in fb.functions:
+                if m.cls != g.cls or not m.has_cfg:
+                    continue
+                for n in m.all_nodes():
+                    tgt = rhs = None
+                    if n.get('k') == 'assign' and n.get('op') in ('+=', '='):
+                        tgt, rhs = n['lhs'], n['rhs']
+                    elif n.get('k') == 'unop' and n.get('op') in ('++', '--'):
+                        tgt = n['sub']
+                    if tgt is None:
+                        continue
+                    t = m.sn(tgt)
+                    if t is None or t.get('k') != 'member' or t.get('q') != fld.get('q'):
+                        continue
+                    if rhs is not None and any(m.nodes[x].get('k') == 'call' and (m.nodes[x].get('q', m.nodes[x].get('name', '')) in ('strlen', 'std::strlen')
+                                               or m.nodes[x].get('q', '').endswith(('::size', '::length'))) for x in m.subtree(rhs)):
+                        grows_len.append(m.loc(n['id']))
+                    elif rhs is None or m.const_value(rhs) is not None:
+                        grows_const.append(m.loc(n['id']))
+            if grows_len:
+                verdicts.append((True, '%s grows by the length of what is stored' % fld['name']))
+            elif grows_const:
+                verdicts.append((False, '%s is a counter (changed by a constant per element at %s), not a number of bytes' % (fld['name'], ', '.join(grows_const[:2]))))
+            else:
+                verdicts.append((None, 'cannot see how %s changes' % fld['name']))
+    if any(v[0] is False for v in verdicts):
+        return next(v for v in verdicts if v[0] is False)
+    if any(v[0] is None for v in verdicts):
+        return next(v for v in verdicts if v[0] is None)
+    return verdicts[0]
+
+
+def block_size_rules(fb, R):
+    """PrimitiveBlock::size() -- the estimate can_add() compares with max_used_blob_size -- has a summand for every member of the
+    block that the serialisation writes into the blob, and every summand is a number of bytes."""
+    PB = NS + 'PrimitiveBlock'
+    rec = fb.record(PB)
+    if rec is None:
+        R.broken('record %s not found' % PB)
+        return
+    # the size function: the parameterless PrimitiveBlock method whose result can_add() compares
+    size_fns = []
+    for f in fb.fns(PB + '::can_add'):
+        for n in f.all_nodes():
+            if n.get('k') == 'binop' and n.get('op') in _CMP:
+                for x in (n['lhs'], n['rhs']):
+                    c = codec.through_locals(f, x)
+                    o = n['rhs'] if x == n['lhs'] else n['lhs']
+                    oc = f.sn(o)
+                    if c is not None and c.get('k') == 'call' and c.get('rcls') == PB and not c.get('args') and oc is not None \
+                            and oc.get('k') == 'var' and oc.get('name') == 'max_used_blob_size':
+                        size_fns.extend(g for g in fb.by_usr.get(c.get('u'), []) if g.has_cfg)
+    if not size_fns:
+        R.broken('%s::can_add: no comparison of a size estimate with max_used_blob_size found' % PB)
+        return
+    S = size_fns[0]
+    # parts written: data members of the block used by the methods the serialiser calls on the block
+    ser_methods = set()
+    for f in fb.functions:
+        if f.has_cfg and f.cls == NS + 'SerializeBlob':
+            for c in f.all_nodes():
+                if c.get('k') == 'call' and c.get('rcls') == PB and c.get('u'):
+                    ser_methods.add(c['u'])
+    if not ser_methods:
+        R.broken('SerializeBlob does not call any %s method' % PB)
+        return
+    field_by_q = {x['q']: x for x in rec.fields}
+    parts = {}
+    for u in ser_methods:
+        for g in fb.by_usr.get(u, []):
+            if not g.has_cfg:
+                continue
+            for n in g.all_nodes():
+                if n.get('k') == 'member' and n.get('field') and n.get('q') in field_by_q and g.is_this_member(n['id']):
+                    fd = field_by_q[n['q']]
+                    t = fd['tC']
+                    if t.startswith(('protozero::', 'osmium::io::detail::pbf_output_options')) or _int_type(t) is not None or t.startswith('osmium::io::detail::OSMFormat'):
+                        continue   # writer handle / options / scalars: not data that ends up in the blob
+                    parts[fd['q']] = fd
+    if not parts:
+        R.broken('%s: cannot determine which members are serialised into the blob' % PB)
+        return
+    # the estimate may be split over private helpers of the block (`dense_size()`): treat their bodies as part of size()
+    size_bodies = [S]
+    for c in S.all_nodes():
+        if c.get('k') == 'call' and c.get('rcls') == PB and c.get('u'):
+            for g in fb.by_usr.get(c['u'], []):
+                if g.has_cfg and g not in size_bodies:
+                    size_bodies.append(g)
+                    break
+    S_main = S
+    for q, fd in sorted(parts.items()):
+        S = S_main
+        key = '%s#%s' % (S.q, fd['name'])
+        uses = []
+        S0 = S
+        for B in size_bodies:
+            uses = [n for n in B.all_nodes() if n.get('k') == 'member' and n.get('q') == q and B.is_this_member(n['id'])]
+            if uses:
+                S = B
+                break
+        if not uses:
+            S = S0
+            R.bad('pbf-block-size-counts-every-serialised-part', key, S.site,
+                  '%s is serialised into the blob (%s) but %s does not count it: can_add() never sees it grow and blocks above the '
+                  'blob size limit are written' % (fd['name'], ', '.join(sorted(g.q for u in ser_methods for g in fb.by_usr.get(u, [])[:1])), S.q))
+            continue
+        # the summand: the call made on the member
+        verdict = None
+        use_ids = {u_['id'] for u_ in uses}
+        for p in S.all_nodes():
+            if p.get('k') != 'call' or p.get('recv') is None or not (use_ids & set(S.subtree(p['recv']))):
+                continue
+            q2 = p.get('q', '')
+            if q2.startswith('std::unique_ptr::') or q2.endswith('::(conv)') or q2.endswith('operator bool'):
+                continue   # access path / null test, not the summand
+            if q2 in ('std::basic_string::size', 'std::basic_string::length'):
+                v = (True, 'size of a std::string')
+            else:
+                v = None
+                for h in fb.by_usr.get(p.get('u'), []):
+                    if h.has_cfg:
+                        v = _byte_quantity(fb, h)
+                        break
+            if v is not None and (verdict is None or v[0] is False or (v[0] is None and verdict[0])):
+                verdict = v
+        if verdict is None or verdict[0] is None:
+            R.broken('%s: cannot decide whether the summand for %s is a number of bytes (%s)' % (S.q, fd['name'], verdict[1] if verdict else 'no call on the member'))
+            continue
+        R.check(verdict[0], 'pbf-block-size-counts-every-serialised-part', key, S0.site,
+                'the summand of %s for %s is not a number of bytes: %s; can_add() compares the sum with max_used_blob_size (bytes)' % (S.q, fd['name'], verdict[1]),
+                detail={'why': verdict[1]})
+
+
 # ================================================================================================ driver
 
 def run(ctx):
@@ -1730,6 +1967,8 @@ def run(ctx):
         compression_layer_rules(fb, R)
         string_length_rules(fb, R)
         xml_self_closing_rules(fb, R)
+        value_range_rules(fb, R)
+        block_size_rules(fb, R)
         metadata_option_rules(fb, R)
         block_limit_rules(fb, R)
         block_switch_rules(fb, R)
@@ -1753,6 +1992,9 @@ def run(ctx):
         ('reader-fd-for-parser-only-if-not-real', 1),    # Reader constructor
         ('string-length-bound-agrees', 11),              # 10 builder guards (add_tag x6, add_role, add_user, set_user x2) + decode_stringtable
         ('xml-self-closing-only-when-empty', 4),         # XMLOutputBlock::node, way, relation, changeset
+        ('value-range-bound-agrees', 10),                # pbf changeset x2, o5m uid + version, opl_parse_int max/min, string_to_ulong,
+                                                         # parse_timestamp, string_to_location_coordinate max/min
+        ('pbf-block-size-counts-every-serialised-part', 3),  # group data, string table, dense nodes
         ('dense-column-gates-agree', 10),        # the 10 vector members of DenseNodes
         ('dense-columns-parallel', 10),
         ('info-field-gated-by-own-option', 16),  # 6 Info + 6 DenseInfo fields, 3 Info + 1 DenseInfo containers
@@ -1792,6 +2034,7 @@ def _st_block(fb, R):
     block_switch_rules(fb, R)
     metadata_option_rules(fb, R)
     blob_framing_rules(fb, R)
+    block_size_rules(fb, R)
 
 
 def _st_text(fb, R):
@@ -1799,6 +2042,7 @@ def _st_text(fb, R):
     opl_rules(fb, R)
     xml_self_closing_rules(fb, R)
     string_length_rules(fb, R)
+    value_range_rules(fb, R)
 
 
 SELFTESTS = [
@@ -1824,6 +2068,8 @@ SELFTESTS = [
     ('blob-header-length-byte-order', 'c01_block.cpp', _st_block),
     ('xml-constant-value-accepted', 'c01_text.cpp', _st_text),
     ('xml-name-dispatched', 'c01_text.cpp', _st_text),
+    ('value-range-bound-agrees', 'c01_text.cpp', _st_text),
+    ('pbf-block-size-counts-every-serialised-part', 'c01_block.cpp', _st_block),
     ('xml-self-closing-only-when-empty', 'c01_text.cpp', _st_text),
     ('string-length-bound-agrees', 'c01_text.cpp', _st_text),
     ('text-field-gated-by-own-option', 'c01_text.cpp', _st_text),
